@@ -1,5 +1,174 @@
 package main
 
+// Thorough tier: (a) the same rules under other build configurations (GOARCH=386, arm64, -tags verif);
+// (b) the self-test corpus of variants.go, applied in memory, both directions.
+
+import (
+	"fmt"
+	"os"
+	"path/filepath"
+	"sort"
+	"strings"
+	"sync"
+)
+
+type variantOutcome struct {
+	ID      string   `json:"id"`
+	Expect  string   `json:"expect"`
+	Outcome string   `json:"outcome"` // killed, missed, silent-ok, false-alarm, skipped, discarded
+	Rules   []string `json:"rules_reporting,omitempty"`
+	Detail  string   `json:"detail,omitempty"`
+}
+
+func inList(xs []string, x string) bool {
+	for _, y := range xs {
+		if y == x {
+			return true
+		}
+	}
+	return false
+}
+
 func thoroughExtras(c *Ctx, pr *Property, repo, verif string) (map[string]any, []RuleResult) {
-	return nil, nil
+	extra := map[string]any{}
+	var more []RuleResult
+
+	// (a) other build configurations: violations there count like any other
+	type cfg struct{ arch, tags, label string }
+	var cfgNotes []string
+	for _, cf := range []cfg{{"386", "", "GOARCH=386"}, {"arm64", "", "GOARCH=arm64"}, {"", "verif", "tags=verif"}} {
+		p2, err := Load(LoadOpts{Dir: repo, GOARCH: cf.arch, Tags: cf.tags})
+		if err != nil {
+			more = append(more, RuleResult{Rule: "CONFIG@" + cf.label, Engine: "loader", Desc: "the tree loads and type-checks under " + cf.label,
+				Instances: []Instance{{Rule: "CONFIG@" + cf.label, Func: "-", Construct: "load", Verdict: Undecided, Detail: err.Error()}}})
+			continue
+		}
+		c2 := &Ctx{P: p2, Tier: "thorough", memo: map[string]any{}}
+		nv := 0
+		for _, id := range pr.Rules {
+			rr := runRule(c2, id)
+			rr.Rule = id + "@" + cf.label
+			for i := range rr.Instances {
+				rr.Instances[i].Rule = rr.Rule
+				if rr.Instances[i].Verdict == Violation {
+					nv++
+				}
+			}
+			more = append(more, rr)
+		}
+		cfgNotes = append(cfgNotes, fmt.Sprintf("%s: %d packages, %d functions, %d violations", cf.label, len(p2.Pkgs), len(p2.Funcs), nv))
+	}
+	extra["build_configurations"] = append([]string{"host (amd64)"}, cfgNotes...)
+
+	// (b) self-test
+	var mine []Variant
+	for _, v := range variants {
+		if inList(v.Props, pr.ID) {
+			mine = append(mine, v)
+		}
+	}
+	outcomes := make([]variantOutcome, len(mine))
+	var wg sync.WaitGroup
+	sem := make(chan struct{}, 5)
+	for i, v := range mine {
+		wg.Add(1)
+		go func(i int, v Variant) {
+			defer wg.Done()
+			sem <- struct{}{}
+			defer func() { <-sem }()
+			outcomes[i] = runVariant(pr, v, repo)
+		}(i, v)
+	}
+	wg.Wait()
+	tally := map[string]int{}
+	for _, o := range outcomes {
+		tally[o.Outcome]++
+	}
+	extra["selftest"] = map[string]any{
+		"note":     "variants of /repo's current source applied in memory (packages.Config.Overlay); 'killed' = a seeded break was reported, 'silent-ok' = a behaviour-preserving rewrite was not; 'missed' and 'false-alarm' are defects of the checker and do not change the verdict on /repo",
+		"variants": len(mine), "tally": tally, "outcomes": outcomes,
+	}
+	var bad []string
+	for _, o := range outcomes {
+		if o.Outcome == "missed" || o.Outcome == "false-alarm" {
+			bad = append(bad, o.ID+":"+o.Outcome)
+		}
+	}
+	sort.Strings(bad)
+	if len(bad) > 0 {
+		fmt.Fprintf(os.Stderr, "selftest %s: %v\n", pr.ID, bad)
+	}
+	fmt.Printf("%s selftest: %d variants %v\n", pr.ID, len(mine), tally)
+	return extra, more
+}
+
+func runVariant(pr *Property, v Variant, repo string) variantOutcome {
+	out := variantOutcome{ID: v.ID, Expect: "silent"}
+	if v.Fire != "" {
+		out.Expect = "fire " + v.Fire
+	}
+	path := filepath.Join(repo, v.File)
+	src, err := os.ReadFile(path)
+	if err != nil {
+		out.Outcome, out.Detail = "skipped", err.Error()
+		return out
+	}
+	if n := strings.Count(string(src), v.Old); n != 1 {
+		out.Outcome, out.Detail = "skipped", fmt.Sprintf("anchor text occurs %d times in %s", n, v.File)
+		return out
+	}
+	mutated := strings.Replace(string(src), v.Old, v.New, 1)
+	arch := ""
+	fire := v.Fire
+	if i := strings.Index(fire, "@GOARCH="); i >= 0 {
+		arch = fire[i+len("@GOARCH="):]
+		fire = fire[:i]
+	}
+	p2, err := Load(LoadOpts{Dir: repo, GOARCH: arch, Overlay: map[string][]byte{path: []byte(mutated)}})
+	if err != nil {
+		out.Outcome, out.Detail = "discarded", "variant does not type-check: "+err.Error()
+		return out
+	}
+	c2 := &Ctx{P: p2, Tier: "thorough", memo: map[string]any{}}
+	reporting := map[string]bool{}
+	undecided := false
+	for _, id := range pr.Rules {
+		rr := runRule(c2, id)
+		for _, in := range rr.Instances {
+			if in.Verdict == Violation {
+				reporting[id] = true
+			}
+			if in.Verdict == Undecided {
+				undecided = true
+				reporting[id+"(undecided)"] = true
+			}
+		}
+	}
+	for r := range reporting {
+		out.Rules = append(out.Rules, r)
+	}
+	sort.Strings(out.Rules)
+	nViol := 0
+	for r := range reporting {
+		if !strings.HasSuffix(r, "(undecided)") {
+			nViol++
+		}
+	}
+	if v.Fire == "" {
+		if nViol == 0 && !undecided {
+			out.Outcome = "silent-ok"
+		} else {
+			out.Outcome = "false-alarm"
+		}
+		return out
+	}
+	switch {
+	case inList(pr.Rules, fire) && reporting[fire]:
+		out.Outcome = "killed"
+	case !inList(pr.Rules, fire) && nViol > 0:
+		out.Outcome = "killed"
+	default:
+		out.Outcome = "missed"
+	}
+	return out
 }
